@@ -28,6 +28,7 @@ import term_image.render._iterator as RI  # noqa: E402
 import term_image.renderable._renderable as RR  # noqa: E402
 import term_image.renderable._types as RT  # noqa: E402
 from term_image.geometry import Size  # noqa: E402
+from term_image.padding import AlignedPadding, ExactPadding  # noqa: E402
 from term_image.render import RenderIterator  # noqa: E402
 from term_image.renderable import Frame, FrameCount, Renderable, RenderData, Seek  # noqa: E402
 
@@ -60,6 +61,8 @@ class Rec:
         self.in_del = 0
         self.iters = []  # weakrefs of all successfully constructed iterators, in order
         self.render_fault = None  # [k, exc class]
+        self.resolve_fault = None
+        self.n_resolve = 0
         self.n_render = 0
         self.totals = {}  # idx -> [finCalls, libFin, viaDel, renders, usedAfter]
 
@@ -84,6 +87,21 @@ def _del(self):
 
 
 RenderData.__del__ = _del
+
+_orig_resolve = AlignedPadding.resolve
+
+
+def _resolve(self, terminal_size):
+    r = REC
+    if r is not None and self.relative:
+        k = r.n_resolve
+        r.n_resolve += 1
+        if r.resolve_fault and r.resolve_fault[0] == k:
+            raise r.resolve_fault[1]("injected")
+    return _orig_resolve(self, terminal_size)
+
+
+AlignedPadding.resolve = _resolve
 
 _orig_from = RenderIterator._from_render_data_.__func__
 _orig_init = RenderIterator.__init__
@@ -113,6 +131,11 @@ class R(Renderable):
 
     def _get_render_size_(self):
         return self.size
+
+    def styled_render(self, iteration, finalize, check_size, allow_scroll, padding):
+        """a render operation of this subclass, built on the extension point `_init_render_`"""
+        return self._init_render_(self._render_, None, padding, iteration=iteration, finalize=finalize,
+                                  check_size=check_size, allow_scroll=allow_scroll)
 
     def _get_render_data_(self, *, iteration):
         d = super()._get_render_data_(iteration=iteration)
@@ -217,6 +240,9 @@ class History:
         r = self.r
         if n == "render":
             r.render()
+        elif n == "initRender":
+            it, fin, cs, asc, rp = (x == "1" for x in op[1:6])
+            r.styled_render(it, fin, cs, asc, AlignedPadding(0, -2) if rp else ExactPadding())
         elif n == "draw":
             animate, cs, loops, cache = op[1] == "1", op[2] == "1", int(op[3]), cache_arg(op[4])
             r.draw(animate=animate, check_size=cs, loops=loops, cache=cache)
@@ -262,6 +288,8 @@ class History:
         rec.events = []
         rec.n_render = 0
         rec.render_fault = None
+        rec.resolve_fault = None
+        rec.n_resolve = 0
         rec.by = "l"
         wfault = None
         self.r.size = Size(2, 2)
@@ -271,8 +299,13 @@ class History:
                 rec.render_fault = [k, EXC[exc]]
             elif tgt == "write":
                 wfault = [k, EXC[exc]]
+            elif tgt == "resolve":
+                rec.resolve_fault = [k, EXC[exc]]
             elif tgt == "validate":
-                self.r.size = Size(200, 2)  # wider than the terminal: the real validation fails
+                # the real validation fails: k = 0 wider than the terminal (first comparison),
+                # k = 1 taller (second comparison, made only when scrolling is not allowed)
+                self.r.size = Size(200, 2) if k == 0 else Size(2, 200)
+        n_before = rec.n_objs
         out = Out(wfault)
         so = sys.stdout
         sys.stdout = out
@@ -287,6 +320,8 @@ class History:
             sys.stdout = so
         self.r.size = Size(2, 2)
         rec.by = "l"
+        if op[0] == "initRender" and op[2] == "0" and rec.n_objs > n_before:
+            self.owner[n_before] = "c"  # finalize=False: the data stays the subclass operation's
         sys.last_exc = sys.last_value = sys.last_traceback = None
         gc.collect()
         evs = [e for e in rec.events if not e.endswith(":d")] + sorted(
@@ -320,6 +355,29 @@ class History:
 
 gc.collect()
 gc.freeze()  # keeps the per-operation gc.collect() cheap: only objects made from here on are scanned
+
+
+def exc_class(name):
+    from term_image.renderable import RenderSizeOutofRangeError
+    return {**EXC, "ValueError": ValueError, "RenderSizeOutofRangeError": RenderSizeOutofRangeError,
+            "StopDefiniteIterationError": RI.StopDefiniteIterationError,
+            "FinalizedIteratorError": RI.FinalizedIteratorError}[name]
+
+
+def real_iterparams(fc, loops, cache):
+    """what `RenderIterator._init` derives from its arguments (driver op `iterparams`)"""
+    h = History(fc)
+    try:
+        try:
+            it = RenderIterator(h.r, loops=loops, cache=cache_arg(cache))
+        except ValueError:
+            return "err ValueError"
+        res = (f"ok {'inf' if it._loops < 0 else it._loops} {int(bool(it._cached))} "
+               f"{int(it._loops < 0 or h.r.frame_count is FrameCount.INDEFINITE)}")
+        it.close()
+        return res
+    finally:
+        h.finish()
 
 
 def parse_hist(data):
@@ -369,8 +427,10 @@ def draw_terminates(fc, animate, loops, cache, fault):
     if fault is None:
         return False
     tgt, k, _ = fault
-    if tgt in ("validate", "write"):
+    if tgt == "write":
         return True
+    if tgt in ("validate", "resolve"):
+        return k == 0  # draw validates animations (both comparisons), but only k = 0 is certain to fire
     cached = fc != 0 and (cache == "on" or (cache.startswith("upto") and fc <= int(cache[5:])))
     return (not cached) or k < fc
 
@@ -380,9 +440,19 @@ def exhaustive(max_fc):
     for fc in [0, 1, 2, 3, 4][: max_fc + 1]:
         faults = [None] + [("render", k, e) for k in range(0, 2 * max(fc, 1) + 2) for e in RENDER_EXC]
         wfaults = [("write", k, e) for k in range(0, 4 * max(fc, 1) + 4) for e in WRITE_EXC]
-        vfault = [("validate", 0, "RenderSizeOutofRangeError")]
+        vfault = [("validate", 0, "RenderSizeOutofRangeError"), ("validate", 1, "RenderSizeOutofRangeError"),
+                  ("resolve", 0, "Boom")]
         for f in faults:
             yield mk_case(fc, [(("render",), f)], "x-render")
+        if fc in (1, 3):
+            # a subclass operation on `_init_render_`: all flag combinations × a fault at every place
+            for bits in range(32):
+                it, fin, cs, asc, rp = (str((bits >> j) & 1) for j in range(5))
+                fl = [None, ("validate", 0, "RenderSizeOutofRangeError"), ("validate", 1, "RenderSizeOutofRangeError"),
+                      ("resolve", 0, "Boom"), ("render", 1, "Boom")] + [("render", 0, e) for e in RENDER_EXC]
+                for f in fl:
+                    yield mk_case(fc, [(("initRender", it, fin, cs, asc, rp), f), (("render",), None)],
+                                  "x-initRender-" + (f[0] if f else "nofault"))
         for animate in ("0", "1"):
             for cs in ("0", "1"):
                 for loops in (1, 2, -1):
@@ -427,7 +497,7 @@ def random_history(rng):
     try:
         for _ in range(rng.randrange(2, 16)):
             its, datas = sorted(h.it), sorted(h.held)
-            menu = ["render", "draw", "draw", "iterNew", "iterNew", "mkData"]
+            menu = ["render", "draw", "draw", "iterNew", "iterNew", "mkData", "initRender", "initRender"]
             if its:
                 menu += ["next"] * 8 + ["close", "seek", "seek", "bump", "dropIter"]
             if datas:
@@ -444,9 +514,13 @@ def random_history(rng):
                 fault = ("render", rng.randrange(0, 2 * max(fc, 1) + 2) if kind == "draw" else rng.randrange(0, 2),
                          rng.choice(RENDER_EXC))
             if kind == "draw" and rng.random() < 0.3:
-                fault = rng.choice([("validate", 0, "RenderSizeOutofRangeError"),
+                fault = rng.choice([("validate", rng.randrange(2), "RenderSizeOutofRangeError"), ("resolve", 0, "Boom"),
                                     ("write", rng.randrange(0, 9), rng.choice(WRITE_EXC))])
-            if kind == "render":
+            if kind == "initRender":
+                op = ("initRender",) + tuple(str(rng.randrange(2)) for _ in range(5))
+                fault = rng.choice([None, None, ("validate", rng.randrange(2), "RenderSizeOutofRangeError"),
+                                    ("resolve", 0, "Boom"), ("render", 0, rng.choice(RENDER_EXC))])
+            elif kind == "render":
                 op = ("render",)
             elif kind == "draw":
                 animate = rng.random() < 0.7
@@ -489,7 +563,7 @@ class C10(Property):
         "iterator's `_render_data` are gone (model: `dropRefs`)",
         "the caller does not finalize, or hand to a second iterator, data that an open iterator is using",
     ]
-    quick_cases = 14000
+    quick_cases = 14500
     thorough_cases = 150000
 
     def gen_constants(self):
@@ -517,6 +591,7 @@ class C10(Property):
             f"def initRenderFinalizeDefault : Bool := {lb(dflt(ir, 'finalize'))}\n"
             f"def initRenderIterationDefault : Bool := {lb(dflt(ir, 'iteration'))}\n"
             f"def initRenderCheckSizeDefault : Bool := {lb(dflt(ir, 'check_size'))}\n"
+            f"def initRenderAllowScrollDefault : Bool := {lb(dflt(ir, 'allow_scroll'))}\n"
             f"def fromRenderDataFinalizeDefault : Bool := {lb(dflt(fr, 'finalize'))}\n"
             f"def drawAnimateDefault : Bool := {lb(dflt(dr, 'animate'))}\n"
             f"def drawCheckSizeDefault : Bool := {lb(dflt(dr, 'check_size'))}\n"
@@ -534,6 +609,15 @@ class C10(Property):
         # exhaustive part: every single operation kind × every fault position, ≤ 3 frames
         for case in exhaustive(3 if tier == "quick" else 4):
             yield case
+        # the finer model functions: `_init`'s derived parameters, the `except Exception` table
+        for fc in (0, 1, 2, 3, 5):
+            for loops in (-2, -1, 0, 1, 2, 7):
+                for cache in CACHES + ["upto 4", "upto 5", "upto 6"]:
+                    yield Case(f"iterparams {fc} {loops} {cache}", {"fc": fc, "loops": loops, "cache": cache},
+                               "x-iterparams", True)
+        for name in ("StopIteration", "AttributeError", "ValueError", "RenderSizeOutofRangeError",
+                     "StopDefiniteIterationError", "FinalizedIteratorError", "Boom", "KeyboardInterrupt"):
+            yield Case(f"isexc {name}", {"name": name}, "x-isexc", True)
         while True:
             yield random_history(rng)
 
@@ -544,6 +628,11 @@ class C10(Property):
             C10._frozen = True
             gc.collect()
             gc.freeze()
+        op = case.line.split(" ", 1)[0]
+        if op == "iterparams":
+            return real_iterparams(**case.data)
+        if op == "isexc":
+            return "ok " + str(int(issubclass(exc_class(case.data["name"]), Exception)))
         fc, ops = parse_hist(case.data)
         outs, summ = run_real(fc, ops)
         return "ok " + "|".join(outs) + " # " + summ
@@ -566,7 +655,7 @@ def check_log(fc, ops, outs):
         for e in filter(None, evs.split(",")):
             kind, rest = e[0], e[1:]
             if kind == "c":
-                owner[int(rest)] = "c" if op[0] == "mkData" else "l"
+                owner[int(rest)] = "c" if op[0] == "mkData" or (op[0] == "initRender" and op[2] == "0") else "l"
                 fin[int(rest)] = 0
             elif kind == "r":
                 d, flag = rest.split(":")
@@ -610,8 +699,16 @@ def check_log(fc, ops, outs):
                                f"op #{n}: {op[0]} raised `{outcome}` (close() is safe for multiple invocations)")
             if op[0] in ("close", "dropIter") and int(op[1]) < len(mask) and mask[int(op[1])] != "1":
                 return Failure(f"open-after-close/{where}", f"op #{n}: iterator {op[1]} is open after {op[0]}")
+            # promptness where the code promises it: `_init_render_(finalize=True)` (render() too) has
+            # finalized its data itself when it returns or raises — not left it to `RenderData.__del__`
+            if op[0] == "render" or (op[0] == "initRender" and op[2] == "1"):
+                for e in filter(None, evs.split(",")):
+                    if e[0] == "c" and f"f{e[1:]}:l" not in evs.split(","):
+                        return Failure(f"not-prompt/{where}/flags={''.join(op[1:])}",
+                                       f"op #{n}: `_init_render_(finalize=True)` returned/raised ({outcome}) without "
+                                       f"having finalized its render data (object {e[1:]}); events: {evs}")
             # data of finished operations: finalized exactly once by now
-            if op[0] in ("render", "draw"):
+            if op[0] in ("render", "draw", "initRender"):
                 for e in filter(None, evs.split(",")):
                     if e[0] == "c" and fin.get(int(e[1:]), 0) != 1:
                         return Failure(f"not-finalized/{where}",
@@ -628,7 +725,7 @@ def check_log(fc, ops, outs):
 
 
 def _oracle(self, case, impl_result):
-    if not impl_result.startswith("ok "):
+    if not case.line.startswith("hist ") or not impl_result.startswith("ok "):
         return None
     fc, ops = parse_hist(case.data)
     outs = impl_result[3:].split(" # ")[0].split("|")
